@@ -247,7 +247,9 @@ static void String_Concat(var self, var obj) {
   }
 #endif
   
-  s->val = realloc(s->val, strlen(s->val) + strlen(c_str(obj)) + 1);
+  size_t n = strlen(s->val);
+  size_t m = strlen(c_str(obj));
+  s->val = realloc(s->val, n + m + 1);
   
 #if CELLO_MEMORY_CHECK == 1
   if (s->val is NULL) {
@@ -255,7 +257,8 @@ static void String_Concat(var self, var obj) {
   }
 #endif
   
-  strcat(s->val, c_str(obj));
+  memcpy(s->val + n, c_str(obj), m);
+  s->val[n + m] = '\0';
 }
 
 static void String_Resize(var self, size_t n) {
